@@ -5,6 +5,9 @@ every one of the 2^6 override subsets (several draws each, boundary values 0 and
 synthetic libraries and on the shipped library, and the verdict is the C08 oracle: every set
 override carried by every simulated building, unset ones equal to the reference value, the three
 stock averages and the floor areas equal to their formulae with the overridden values.
+Fifth round (custom_attribute_cities; family in harness/v2_util.py): the oracle on stocks holding CUSTOM archetypes whose
+documented attributes have values no shipped archetype has (pitched roof, green facade, vegetated mass, water film, a BEMDef
+arriving with a share), object and dictionary route.
 Fourth round (circumstance_ties; helpers in harness/u2_util.py): the same oracle under the six circumstances of
 harness/generic.py - observers, DEBUG logging, `python -O`, the command line (the model the command builds is captured
 and judged), other models of the process, one dictionary used for several models.
@@ -709,6 +712,21 @@ def oracle_getters(m, want):
     return None
 
 
+# ------------------------------------------------------------------------------- fifth round: custom attributes
+def custom_attribute_cities(chk, uwg):
+    """Every tie above overrides DOE archetypes, whose roofs are all horizontal, whose walls and masses carry no
+    vegetation and whose BEMDefs arrive with frac 0: a guard or a weighting on such an attribute is the identity there.
+    Family (harness/v2_util.py): custom archetypes with each documented attribute at a legal non-default value."""
+    import v2_util as V
+    n, bad, br = V.attribute_cities(chk, uwg, 'C08')
+    chk.direct('overrides-on-custom-archetypes(documented Element / BEMDef attributes at non-default values)', n, n,
+               V.ATTRIBUTE_RULE + ', under override sets (%s; quick tier: two sets per member, rotating): the getters read the value in '
+               'force; every simulated building - DOE and custom, whatever its roof / wall / mass attributes - carries every '
+               'set override and the reference value (the custom\'s own, taken before the hand-over) of every unset one; '
+               'r_glaze_total, SHGC_total and alb_wall_total equal the share-weighted sums of the CARRIED values; UCM.alb_wall '
+               'and UCM.facAbsor follow from them' % '; '.join(o[0] for o in V.OVERRIDE_SETS), mismatches=bad, branches=br)
+
+
 def run(chk):
     early = circumstance_start(chk)
     c07.run(chk, focus='C08', module=MODULE, theorems=THEOREMS)
@@ -718,6 +736,7 @@ def run(chk):
     param_file_spellings(chk, uwg, pristine)
     overrides_vs_other_parameters(chk, uwg, pristine)
     near_limit_routes(chk, uwg, pristine)
+    custom_attribute_cities(chk, uwg)
     circumstance_ties(chk, uwg, pristine, early)
 
 
